@@ -138,6 +138,28 @@ def copy_study_body():
     return sx.all_of(conds) if conds else True
 
 
+def bracket_offset_body():
+    """Hyperband bracket of (study name, number) must not depend on the trial-id offset"""
+    off = int(sx.sym_int("id_offset", 0, 4))
+    rf = sx.choose([2, 3], "rf")
+    res = []
+    for o in (0, off):
+        pruner = optuna.pruners.HyperbandPruner(min_resource=1, max_resource=9, reduction_factor=rf)
+        storage = _mk_storage(o)
+        study = optuna.create_study(storage=storage, study_name="s", pruner=pruner, sampler=optuna.samplers.RandomSampler(seed=0))
+        ids = []
+        for n in range(5):
+            t = study.ask()
+            t.report(sx.sym_real(f"r{n}"), 0)
+            t.should_prune()
+            ids.append(pruner._get_bracket_id(study, storage.get_trial(t._trial_id)))
+            study.tell(t, 0.0)
+        res.append(ids)
+    sx.reach("compared")
+    assert res[0] == res[1], f"Hyperband brackets depend on the trial-id offset {off}: {res}"
+    return True
+
+
 # ----------------------------------------------------------------------------- supplementary concrete differential
 def _objective(trial):
     x = trial.suggest_float("x", -3, 3)
@@ -166,6 +188,14 @@ def _objective_finite(trial):
     return k * 0.1 + y
 
 
+def _objective_grid(trial):
+    g = trial.suggest_categorical("g", [0, 1.5, float("nan"), float("inf")])
+    c = trial.suggest_categorical("c", ["a", None, True])
+    base = 0.0 if (isinstance(g, float) and (g != g or g == float("inf"))) else float(g)
+    trial.report(base, 0)
+    return base + (1.0 if c == "a" else 0.0)
+
+
 def _objective_mo(trial):
     x = trial.suggest_float("x", 0, 1)
     y = trial.suggest_float("y", 0, 1)
@@ -184,18 +214,36 @@ def _samplers():
         "qmc": (lambda: S.QMCSampler(seed=7, qmc_type="halton"), False),
         "cmaes": (lambda: S.CmaEsSampler(seed=7, n_startup_trials=3), False),
         "bruteforce": (lambda: S.BruteForceSampler(seed=7), False),
+        "grid": (lambda: S.GridSampler({"g": [0, 1.5, float("nan"), float("inf")], "c": ["a", None, True]}, seed=7), False),
     }
     return out
 
 
+class _FreshPruner:
+    """factory wrapper: every run gets its own pruner object"""
+    def __init__(self, mk):
+        self.mk = mk
+
+
 def _run(make_sampler, mo, storage, splits, pruner):
+    if isinstance(pruner, _FreshPruner):
+        pruner = pruner.mk()
     study = optuna.create_study(storage=storage, study_name="run", sampler=make_sampler(), pruner=pruner,
                                 directions=["minimize", "minimize"] if mo else ["minimize"])
     for n in splits:
-        obj = _objective_mo if mo else (_objective_finite if isinstance(study.sampler, optuna.samplers.BruteForceSampler) else _objective)
+        obj = _objective_mo if mo else (_objective_finite if isinstance(study.sampler, optuna.samplers.BruteForceSampler) else
+                                        _objective_grid if isinstance(study.sampler, optuna.samplers.GridSampler) else _objective)
         study.optimize(obj, n_trials=n, catch=(ValueError,))
-    return [(t.number, t.state.name, tuple(sorted(t.params.items())), tuple(t.values) if t.values else None,
-             tuple(sorted(t.intermediate_values.items()))) for t in study.get_trials(deepcopy=False)]
+    # repr() of plain Python numbers so that NaN compares equal to itself and numpy scalars compare by value
+    def norm(x):
+        if isinstance(x, bool) or x is None or isinstance(x, str):
+            return x
+        if isinstance(x, int):
+            return int(x)
+        return float(x)
+    return [repr((t.number, t.state.name, tuple((k, norm(v)) for k, v in sorted(t.params.items(), key=lambda kv: kv[0])),
+                  tuple(norm(v) for v in t.values) if t.values else None,
+                  tuple((int(k), norm(v)) for k, v in sorted(t.intermediate_values.items())))) for t in study.get_trials(deepcopy=False)]
 
 
 def _run_split(make_sampler, mo, splits, pruner):
@@ -223,8 +271,12 @@ def differential():
             except Exception as e:  # noqa  (optional dependency missing offline)
                 samples.append({"sampler": name, "skipped": str(e)[:80]})
                 continue
-            pruners = [None] if mo else [optuna.pruners.MedianPruner(n_startup_trials=3, n_warmup_steps=0)]
-            for pr in pruners:
+            mk_pruners = [lambda: None] if mo else [lambda: optuna.pruners.MedianPruner(n_startup_trials=3, n_warmup_steps=0),
+                                                    lambda: optuna.pruners.HyperbandPruner(min_resource=1, max_resource=3, reduction_factor=2)]
+            if name in ("grid", "bruteforce", "qmc", "cmaes", "tpe-mv-group"):
+                mk_pruners = mk_pruners[:1]
+            for pi, mkp in enumerate(mk_pruners):
+                pr = _FreshPruner(mkp)
                 N = 14
                 try:
                     base = _run(mk, mo, InMemoryStorage(), [N], pr)
@@ -233,7 +285,7 @@ def differential():
                     continue
                 variants = {
                     "id-offset-3": lambda: _run(mk, mo, _mk_storage(3), [N], pr),
-                    "journal-file": lambda: _run(mk, mo, JournalStorage(JournalFileBackend(f"{d}/{name}.log")), [N], pr),
+                    "journal-file": lambda: _run(mk, mo, JournalStorage(JournalFileBackend(f"{d}/{name}-{pi}.log")), [N], pr),
                     "rerun": lambda: _run(mk, mo, InMemoryStorage(), [N], pr),
                     "split-5+9": lambda: _run_split(mk, mo, [5, 9], pr),
                 }
@@ -263,8 +315,11 @@ def differential():
 
 def setup(concrete):
     if not concrete:
-        from stubs.shims import shim_frozen_trial
+        from stubs.shims import shim_frozen_trial, shim_tell
         shim_frozen_trial()
+        shim_tell()
+        from optuna.pruners import _successive_halving as psh
+        psh.math = sx.mathshim
 
 
 CODE = [BaseGASampler.get_parent_population, BaseGASampler.get_trial_generation, BaseGASampler.get_population,
@@ -292,10 +347,13 @@ def obligations(tier):
         Obligation("ga-generation", generation_body, setup, CODE, bounds=dict(id_offset="0..3", trials=3, generations="-1..2 each"),
                    budget_s=300, classify=classify, require_reach=["compared"],
                    describe="get_trial_generation/get_population with and without id offset"),
+        Obligation("hyperband-bracket-offset", bracket_offset_body, setup, CODE + [optuna.pruners.HyperbandPruner._get_bracket_id],
+                   bounds=dict(id_offset="0..4", trials=5), budget_s=300, classify=classify, require_reach=["compared"],
+                   describe="Hyperband bracket ids with and without a trial-id offset"),
         Obligation("copy-study", copy_study_body, setup, CODE, bounds=dict(trials=3, states=4, id_offset="0..2"), shard_depth=3,
                    budget_s=400, classify=classify, require_reach=["copied"],
                    describe="copy_study reproduces every field of every trial (values/intermediate values z3 reals, inf/NaN forks)"),
         Obligation("seeded-run-differential", None, None, [], custom=differential,
-                   describe="SUPPLEMENTARY, concrete: seeded runs of 8 samplers x (id offset 3 | journal file | rerun) equal the in-memory run"),
+                   describe="SUPPLEMENTARY, concrete: seeded runs of 9 samplers x {Median, Hyperband} pruners x (id offset 3 | journal file | rerun | split) equal the in-memory run"),
     ]
     return obs
